@@ -59,14 +59,19 @@ type LintConfig struct {
 
 // Lint lints file
 func Lint(stream io.Reader, lc LintConfig) error {
+	errorCount := 0
 	err := parser.ParseStreamCallback(stream, lc.ParserConfig, func(node *shared.ParserNode, err error) (stop bool, cbError error) {
 		if err != nil {
+			errorCount++
 			fmt.Fprintln(lc.ReporterConfig.Output, err)
 		}
 		return false, nil
 	})
 	if err != nil {
 		return err
+	}
+	if errorCount > 0 {
+		return fmt.Errorf("%d errors found", errorCount)
 	}
 	if !lc.Silent {
 		fmt.Fprintln(lc.ReporterConfig.Output, "No errors found")
